@@ -26,7 +26,10 @@ def main():
         entries += ['filter_tables:' + f, 'filter_candset:' + f]
     entries += ['apply_matcher', 'profile']
     for e in entries:
-        ck.e2(e, h_valid.make(dict(entry=e)), stop_on_violation=False, chunk_paths=100)
+        cfg = dict(entry=e)
+        if e.startswith('ctor:') and not e.endswith('OverlapFilter'):
+            cfg['measures'] = ['JACCARD', 'COSINE', 'DICE', 'OVERLAP', 'EDIT_DISTANCE']
+        ck.e2(e, h_valid.make(cfg), stop_on_violation=False, chunk_paths=100)
     for f in ('SizeFilter', 'PrefixFilter'):
         ck.e2('ctor-ED:' + f, h_valid.make(dict(entry='ctor:' + f, measure='EDIT_DISTANCE', valid=False,
                                                kinds=['non-qgram-tokenizer', 'threshold-low'])),
